@@ -464,7 +464,7 @@ def run_part2(case, ob, site):
 # ------------------------------------------------------------------------------------------
 # part 3: block-level faults
 
-FAULTS = ['second_driver', 'undriven', 'undriven_register', 'undriven_output', 'reg_driven_by_gate', 'cycle_into_sync_mem', 'unconnected', 'foreign_wire', 'foreign_dest', 'duplicate_name', 'stale_by_name', 'missing_by_name',
+FAULTS = ['second_driver', 'undriven', 'undriven_register', 'undriven_output', 'reg_driven_by_gate', 'cycle_into_sync_mem', 'unconnected', 'foreign_wire', 'foreign_dest', 'duplicate_name', 'duplicate_name_const', 'stale_by_name', 'missing_by_name',
           'sync_mem_comb_addr', 'comb_cycle', 'isolated_ring', 'mem_cycle', 'bad_arity', 'bad_width', 'bad_memid', 'write_to_rom', 'undriven_sync_addr']
 CYCLES = ('comb_cycle', 'isolated_ring', 'mem_cycle', 'cycle_into_sync_mem')   # detected by iteration (simulator construction), not by sanity_check alone
 
@@ -612,6 +612,26 @@ def inject(block, fault, fsite):
                 return False
             a, b = wires[fsite], wires[fsite + 1]
             b._name = a.name     # bypass the name setter, which would re-register the wire
+        elif fault == 'duplicate_name_const':
+            # a repeated name that involves a Const: a Const carrying the name of another wire, a wire carrying the name of a
+            # Const, two Consts of one name
+            consts = [w for w in wires if isinstance(w, pyrtl.Const)]
+            others = [w for w in wires if not isinstance(w, pyrtl.Const)]
+            if not consts or not others:
+                return False
+            def rename(w, new):
+                # as the constructor / the name setter registers it: the by-name table ends up with one entry for the name
+                block.wirevector_by_name.pop(w.name, None)
+                w._name = new
+                block.wirevector_by_name[new] = w
+            if fsite == 0:
+                rename(consts[0], others[0].name)
+            elif fsite == 1:
+                rename(others[-1], consts[-1].name)
+            elif fsite == 2 and len(consts) >= 2:
+                rename(consts[1], consts[0].name)
+            else:
+                return False
         elif fault == 'stale_by_name':
             if fsite >= len(wires):
                 return False
